@@ -218,7 +218,7 @@ namespace {
     // both operators are O(modulus) up to powers of the stretches: the
     // conditioning factor covers the change of units between them
     R rel = 1e-10L * s.amp;
-    if (S == TO::DT_DELOG && s.sc.relax() > 1) rel = std::max(rel, R(1e-6L)) * s.sc.relax();
+    if (S == TO::DT_DELOG && s.sc.relax() > 1) rel = 4 * std::max(rel, R(1e-6L)) * s.sc.relax();
     const R tol = rel * mt + 100 * (rt.err + s.amp * rs.err * mt / ms);
     // input class of its own: see C24 (divided differences of the logarithm)
     std::string key = "C23.convert." + nm;
@@ -300,7 +300,7 @@ namespace {
     const auto K2 = run<N>(R2{}, Ka, s);
     const R m = std::max(maxAbs(K1), maxAbs(K2));
     R rel = 1e-11L * s.amp;
-    if (A == TO::DT_DELOG && s.sc.relax() > 1) rel = std::max(rel, R(1e-6L)) * s.sc.relax();
+    if (A == TO::DT_DELOG && s.sc.relax() > 1) rel = 4 * std::max(rel, R(1e-6L)) * s.sc.relax();
     std::string key = "C23.compose." + nm;
     if (A == TO::DT_DELOG && s.sc.doubleEigenvalue3d) key = "C23.compose.from_DT_DELOG.double_eigenvalue_3d";
     if (A == TO::DT_DELOG && s.sc.equalLarge) key = "C23.compose.from_DT_DELOG.equal_large";
